@@ -375,7 +375,20 @@ func writeEvidence(prop, tier string, seed int, res []*fnResult, all []*Oblig, c
 		fns = append(fns, e)
 		if r.FG != nil {
 			for k := range r.FG.usedAssumed {
+				if strings.HasPrefix(k, "iface:") {
+					trusted[g.ifaceCoverage(strings.TrimPrefix(k, "iface:"))] = true
+					continue
+				}
 				trusted["assumed contract: "+k] = true
+			}
+			if strings.HasPrefix(r.Key, "refines:") {
+				for _, rf := range g.ct.Refines {
+					if "refines:"+rf.Iface+":"+rf.Impl == r.Key {
+						for _, a := range rf.Assuming {
+							trusted[fmt.Sprintf("input validity ASSUMED by the refinement of %s by %s: %s", rf.Iface, rf.Impl, a.Src)] = true
+						}
+					}
+				}
 			}
 		}
 	}
